@@ -113,12 +113,13 @@ class VBits(VOpaque):
     an unknown integer whose ORDER against another bit pattern is known — equal to the numeric order for
     two non-negative floats, REVERSED for two negative ones (sign-magnitude), and decided by the sign
     bit otherwise (set = negative as i64, large as u64)"""
-    __slots__ = ("src", "signed")
+    __slots__ = ("src", "signed", "maybe_nan")
 
-    def __init__(self, src, signed, tag):
+    def __init__(self, src, signed, tag, maybe_nan=False):
         VOpaque.__init__(self, "i64" if signed else "u64", tag)
         self.src = src
         self.signed = signed
+        self.maybe_nan = maybe_nan      # then only equality with a non-NaN constant pattern is decided
 
 
 def bits_compare(op, a, b):
@@ -190,6 +191,10 @@ EXPLORE_SECONDS = int(_os.environ.get("AVG_EXPLORE_SECONDS", "120"))
 # wall-clock budget for ONE path (a loop the evaluator cannot bound keeps stepping with ever larger
 # residuals; the path is then undecided, not the whole run stuck)
 PATH_SECONDS = int(_os.environ.get("AVG_PATH_SECONDS", "60"))
+# wall-clock budget for one check run (all explorations together): the pinned tree needs 30 s (quick) to 130 s
+# (thorough C20); an idiom that makes every exploration hit its own budget must not add up to an hour
+RUN_SECONDS = int(_os.environ.get("AVG_RUN_SECONDS", "900"))
+_RUN_T0 = _time.time() if "_time" in globals() else None
 
 
 class Config:
@@ -304,10 +309,12 @@ class Machine:
                 raise PathEnd("infeasible")
             self.pc.append(("fcmp", op, a, b, t, span))
             if ((op == "Eq" and t) or (op == "Ne" and not t)):
-                if a[0] == "atom" and F.is_zero(b):
-                    self.zero_atoms[a] = F.ZERO
-                elif b[0] == "atom" and F.is_zero(a):
-                    self.zero_atoms[b] = F.ZERO
+                z = a if F.is_zero(b) else (b if F.is_zero(a) else None)
+                while z is not None and z[0] in ("neg", "fn") and (z[0] == "neg" or (z[1] == "abs" and len(z) == 3)):
+                    self.zero_atoms[z] = F.ZERO           # |x| == 0 and -x == 0 say x == 0
+                    z = z[1] if z[0] == "neg" else z[2]
+                if z is not None and z[0] == "atom":
+                    self.zero_atoms[z] = F.ZERO
             return t
         if k == "isnan":
             a = c[1]
@@ -356,6 +363,8 @@ class Machine:
         if k == "bopq":
             t = self.choose(2, ("opaque-bool", span)) == 0
             self.mark_inconclusive("branch on an unmodelled boolean (%s)" % (c[1],), span)
+            # visible in the path condition: what a rule finds on such a path rests on an unknown answer
+            self.pc.append(("bopq", c[1], t, span))
             return t
         raise Unsupported("cond %r" % (k,))
 
@@ -793,8 +802,25 @@ class Machine:
                     return (a == b) if op == "Eq" else (a != b)
                 e = ("beq", a, b)
                 return e if op == "Eq" else ("not", e)
-        if isinstance(a, VBits) and isinstance(b, VBits) and a.signed == b.signed and op in cmpops:
+        if isinstance(a, VBits) and isinstance(b, VBits) and a.signed == b.signed and op in cmpops and not (a.maybe_nan or b.maybe_nan):
             return bits_compare(op, a, b)
+        if isinstance(a, VBits) and op in ("Shl", "ShlUnchecked") and simp(b) == 1 and not isinstance(simp(b), bool):
+            # `bits << 1` drops the sign bit: what is left is the pattern of |x| (shifted), zero exactly when x is +-0.0
+            return VBits(F.fn("abs", a.src), False, self.new_name("bits<<1"), True)
+        if op in ("Eq", "Ne") and ((isinstance(a, VBits) and isinstance(simp(b), int)) or (isinstance(b, VBits) and isinstance(simp(a), int))):
+            # `x.to_bits() == K`: x is the float with that bit pattern (a test for +0.0 when K = 0; the sign of a
+            # zero is not tracked, so -0.0 is not told apart)
+            vb, kk = (a, simp(b)) if isinstance(a, VBits) else (b, simp(a))
+            kk &= (1 << 64) - 1
+            if str(vb.tag).startswith("bits<<1") and kk != 0:
+                return ("bopq", self.new_name("cmp"))        # only the zero test of a shifted pattern is decided
+            if (kk & 0x7ff0000000000000) == 0x7ff0000000000000 and (kk & 0x000fffffffffffff):
+                return ("bopq", self.new_name("cmp"))        # comparison with a NaN pattern
+            src = vb.src
+            if kk == 0 and src[0] == "fn" and src[1] == "abs" and len(src) == 3:
+                src = src[2]                                 # |x| == 0 is x == 0
+            e = ("fcmp", "Eq", src, ("lit", kk))
+            return e if op == "Eq" else ("not", e)
         if isinstance(a, VOpaque) or isinstance(b, VOpaque):
             if op in cmpops:
                 return ("bopq", self.new_name("cmp"))
@@ -808,7 +834,7 @@ class Machine:
         if kind == "IntToInt":
             if isinstance(v, VBits):
                 if tys in ("i64", "u64"):
-                    return VBits(v.src, tys == "i64", v.tag)      # same 64 bits, other interpretation
+                    return VBits(v.src, tys == "i64", v.tag, v.maybe_nan)      # same 64 bits, other interpretation
                 return VOpaque(tys, self.new_name("bits-narrowed"))
             v = simp(v)
             if isinstance(v, int) and tys in INT_RANGE:
@@ -1183,12 +1209,31 @@ def explore(db, setup, cfg=None, max_paths=20000):
     n_infeasible = 0
     n = 0
     t_start = _time.time()
+    global _RUN_T0
+    if _RUN_T0 is None:
+        _RUN_T0 = t_start
+    if t_start - _RUN_T0 > RUN_SECONDS:
+        m0 = Machine(db, script, cfg)
+        return [PathResult(status="inconclusive", info={"why": "time budget of %d s for one check run exhausted" % RUN_SECONDS},
+                           pc=[], writes=[], calls=[], unmodelled=[], trace=[], machine=m0, roots={})], {"runs": 0, "infeasible": 0}
     while True:
         m = Machine(db, script, cfg)
         status, ret, info, roots, extra = None, None, {}, {}, None
         try:
             thunk, roots = setup(m)
             ret = thunk()
+            if m.zero_atoms:
+                # a float returned on a path where it is known to be 0 is 0 (also as a direct member of a result tuple)
+                def _z(v_):
+                    if isinstance(v_, tuple) and v_ and isinstance(v_[0], str) and is_float(v_) and not F.is_lit(v_):
+                        return F.subst(v_, m.zero_atoms)
+                    return v_
+                if isinstance(ret, tuple) and ret and not isinstance(ret[0], str):
+                    ret = tuple(_z(v_) for v_ in ret)
+                elif isinstance(ret, list):
+                    ret = [_z(v_) for v_ in ret]
+                else:
+                    ret = _z(ret)
             status = "return"
         except PathEnd as e:
             status, info = e.status, e.info
